@@ -107,8 +107,11 @@ def run_one(tape, cfg):
     out.wdigest = dg(wl)
     out.policy = policy
     del tokvals.NestedTokenizer.instances[:]
+    tokvals.reset_local_classes()          # run-time classes are new objects in every run
     values = [tokvals.build(s) for s in specs]
     baseline = [tokenize(v) for v in values]
+    if any(s[0] == "localcls" for s in specs) and any(s[0] == "localinst" for s in specs):
+        out.probe("runtime_class_and_instance")
     # (a') a tokenize() call made from inside a __dask_tokenize__ is a tokenize() call like any other:
     # it returns the token a top-level call returns for an equal value, whatever the enclosing call
     # has on its stack
